@@ -1,6 +1,11 @@
 import Abyss.Props.C15
 import Abyss.Props.GenCorollaries
 import Abyss.Props.GenCorollaries3
+import Abyss.Props.C04Adapt
+import Abyss.Lemmas.ReadFillL
+#print axioms Abyss.C15_generated_readFillBuffer
+#print axioms Abyss.readFillBuffer_apply
+#print axioms Abyss.RaBuf.readFillBuffer_flat
 #print axioms Abyss.C15_generated_session
 #print axioms Abyss.C15_generated_session_after
 #print axioms Abyss.C15_generated_readonly
